@@ -74,6 +74,11 @@ def run(ctx):
             seen.add(a.key())
             ac.append((a, rng.choice([1, 2, 3, 4, 0.5, 1.5, 12, 22, 0.25])))
         it = {"id": i, "variants": variants(rng, ac, 5), "T": "T1" if i % 11 == 0 else None, "touch": i % 2 == 1}
+        if i % 10 == 5 and len(ac) >= 2:
+            # an atom whose count is zero is still an atom of the formula: the Hill form has the same atom counts
+            j = rng.randrange(len(ac))
+            ac2 = [(a, (0 if k == j else c)) for k, (a, c) in enumerate(ac)]
+            it = {"id": i, "variants": variants(rng, ac2, 5), "T": it["T"], "touch": it["touch"], "noparse": True}
         if i % 10 == 3 and len(ac) >= 2:
             # counts that carry floating-point round-off (100 * 0.07 = 7.000000000000001): the Hill form keeps them as they are
             k = rng.choice([100, 3, 7, 10])
